@@ -1,4 +1,452 @@
 package main
 
-// jobSyncMonitor: placeholder, filled in below (history-level judgement of C08-C13).
-func jobSyncMonitor(res *Result, m *mJob, cfg jsCfg, ops []jsOp, obs []jsObs, js interface{}) {}
+import (
+	"fmt"
+	"strings"
+	"time"
+
+	clocktesting "k8s.io/utils/clock/testing"
+
+	"github.com/furiko-io/furiko/pkg/utils/ktime"
+
+	corev1 "k8s.io/api/core/v1"
+	metav1 "k8s.io/apimachinery/pkg/apis/meta/v1"
+
+	execution "github.com/furiko-io/furiko/apis/execution/v1alpha1"
+	"github.com/furiko-io/furiko/pkg/execution/controllers/jobcontroller"
+	"github.com/furiko-io/furiko/pkg/execution/taskexecutor/podtaskexecutor"
+	"github.com/furiko-io/furiko/pkg/execution/tasks"
+	jobutil "github.com/furiko-io/furiko/pkg/execution/util/job"
+)
+
+// jobSyncMonitor judges a whole history of the real job controller against C08-C13
+// (and the history clauses of C10/C11) directly: every Pod create and delete the
+// controller issued, every stored Job version pairwise with its predecessor, and the
+// end state after the system was driven to quiescence. It never consults the model.
+// Signatures end in "/pod-cache-lag" when the pass that did it ran while Pod events
+// were still undelivered to its cache.
+
+func podAlive(p *corev1.Pod) bool {
+	return p.Status.Phase != corev1.PodSucceeded && p.Status.Phase != corev1.PodFailed
+}
+func podControlled(p *corev1.Pod) bool {
+	ref := metav1.GetControllerOf(p)
+	return ref != nil && ref.Kind == "Job" && string(ref.UID) == jobUID
+}
+func splitTaskName(n string) (string, int64) {
+	parts := strings.Split(n, "-")
+	var r int64
+	fmt.Sscan(parts[len(parts)-1], &r)
+	return parts[len(parts)-2], r
+}
+func jobFinished(j *execution.Job) bool { return j != nil && j.Status.Condition.Finished != nil }
+
+func jobSyncMonitor(res *Result, m *mJob, cfg jsCfg, ops []jsOp, obs []jsObs, js interface{}) {
+	// Once a task has been recorded as lost/finished while its Pod exists (finding F4: the Pod
+	// cache lagged behind the Job cache), the recorded finish time is kept forever and every
+	// later judgement of this history is a consequence of it; such hits carry a suffix.
+	tainted := false
+	// A foreign Pod that takes the name of an ALREADY RECORDED task (whose own Pod is gone) is
+	// looked up by name and merged into that task's ref (finding F16); later judgements of the
+	// history are consequences of it.
+	foreignOnRecorded := false
+	hit := func(prop, sig, what string) {
+		if tainted && !strings.HasPrefix(sig, "C09/lost-while-exists") {
+			sig += "/after-lost-while-exists"
+		} else if foreignOnRecorded && !strings.HasPrefix(sig, "C09/foreign-pod-treated-as-task") {
+			sig += "/foreign-pod-on-recorded-name"
+		}
+		res.Hits = append(res.Hits, MonitorHit{prop, sig, what, js})
+	}
+	// detect the taint before judging the step in which it happens
+	taintAt := -1
+	for k := range ops {
+		if obs[k].Job == nil || ops[k].Kind != "sync" {
+			continue
+		}
+		for _, r := range obs[k].Job.Status.Tasks {
+			for _, p := range obs[k].Pods {
+				if p.Name == r.Name && podControlled(p) && podAlive(p) && (r.Status.State == execution.TaskDeletedFinalStateUnknown || !r.FinishTimestamp.IsZero()) && taintAt < 0 {
+					taintAt = k
+				}
+			}
+		}
+	}
+	lagSfx := func(o jsObs) string {
+		s := ""
+		if o.PodLag {
+			s += "/pod-cache-lag"
+		}
+		if o.JobLag {
+			s += "/job-cache-lag"
+		}
+		return s
+	}
+	pt := int64(0)
+	if cfg.Pending != nil {
+		pt = *cfg.Pending
+	}
+	if m.PendingTimeout != nil && *m.PendingTimeout >= 0 {
+		pt = *m.PendingTimeout
+	}
+	fd := int64(0)
+	if cfg.Force != nil {
+		fd = *cfg.Force
+	}
+	created := map[string]int64{}       // per hash: number of successful creates so far
+	truthFinish := map[string]int64{}   // per task name: when the attempt really ended
+	truthSucceeded := map[string]bool{} // per hash: a Pod of it really succeeded
+	everRecorded := map[string]bool{}   // task names that appeared in some stored status
+	userTouched := false                // kill or delete issued by the user
+	foreignSeen := false
+	var prevJob *execution.Job
+	var prevPods []*corev1.Pod
+	for k, o := range ops {
+		ob := obs[k]
+		now := ob.Now
+		if k == taintAt {
+			tainted = true
+		}
+		if prevJob != nil && !foreignOnRecorded {
+			for _, r := range prevJob.Status.Tasks {
+				for _, p := range prevPods {
+					if p.Name == r.Name && !podControlled(p) {
+						foreignOnRecorded = true
+						hit("C09", "C09/foreign-pod-treated-as-task", fmt.Sprintf("op %d: Pod %s is not controlled by the Job but carries the name of a recorded task; the controller binds it by name", k, p.Name))
+					}
+				}
+			}
+		}
+		switch o.Kind {
+		case "kill", "delete":
+			userTouched = true
+		case "kubelet":
+			switch o.Step {
+			case "succeed":
+				h, _ := splitTaskName(o.Name)
+				for _, p := range prevPods {
+					if p.Name == o.Name && podControlled(p) {
+						truthSucceeded[h] = true
+					}
+				}
+				truthFinish[o.Name] = now
+			case "fail", "oom":
+				truthFinish[o.Name] = now
+			case "terminate", "vanish":
+				if _, ok := truthFinish[o.Name]; !ok {
+					truthFinish[o.Name] = now
+				}
+			}
+		}
+		if prevJob != nil {
+			for _, r := range prevJob.Status.Tasks {
+				everRecorded[r.Name] = true
+			}
+		}
+		// Pods removed by this op (force delete, unscheduled delete)
+		for _, p := range prevPods {
+			gone := true
+			for _, q := range ob.Pods {
+				if q.Name == p.Name {
+					gone = false
+				}
+			}
+			if gone {
+				if _, ok := truthFinish[p.Name]; !ok {
+					truthFinish[p.Name] = now
+				}
+			}
+		}
+		if o.Kind == "sync" {
+			cj := ob.CachedJob
+			for _, a := range ob.Actions {
+				switch a.Verb {
+				case "create":
+					if a.Outcome == 1 {
+						for _, p := range prevPods {
+							if p.Name == a.Name && !podControlled(p) {
+								foreignSeen = true
+							}
+						}
+					}
+					if a.Outcome != 0 {
+						continue
+					}
+					h, r := splitTaskName(a.Name)
+					// An attempt whose Pod was created but never recorded (failed status write) and
+					// then removed from outside leaves no trace anywhere: the controller cannot know
+					// it existed, so re-using its number is not judged (DESIGN.md, C08 monitor).
+					if r < created[h] && !everRecorded[a.Name] {
+						created[h] = r
+					}
+					if r != created[h] {
+						hit("C08", "C08/retry-number-not-next"+lagSfx(ob), fmt.Sprintf("op %d: created %s but %d attempts were created before for index %s", k, a.Name, created[h], h))
+					}
+					if r >= m.MaxAttempts {
+						hit("C08", "C08/exceeds-max-attempts", fmt.Sprintf("op %d: created %s with maxAttempts %d", k, a.Name, m.MaxAttempts))
+					}
+					created[h]++
+					for _, p := range prevPods {
+						ph, pr := splitTaskName(p.Name)
+						if ph == h && podControlled(p) && podAlive(p) {
+							hit("C08", "C08/second-live-task"+lagSfx(ob), fmt.Sprintf("op %d: created %s while %s of the same index is neither finished nor gone", k, a.Name, p.Name))
+						}
+						_ = pr
+					}
+					if r > 0 {
+						prev := taskName(h, r-1)
+						if tf, ok := truthFinish[prev]; ok && now < tf+m.RetryDelay {
+							hit("C08", "C08/retry-before-delay", fmt.Sprintf("op %d: created %s at %d but attempt %d ended at %d and retryDelay is %d s", k, a.Name, now, r-1, tf, m.RetryDelay))
+						}
+					}
+					if cj != nil {
+						_, adm := jobutil.GetAdmissionErrorMessage(cj)
+						if cj.Spec.KillTimestamp != nil {
+							hit("C08", "C08/create-with-kill-timestamp", fmt.Sprintf("op %d: created %s although the Job (as cached) has a kill timestamp", k, a.Name))
+							hit("C12", "C12/create-with-kill-timestamp", fmt.Sprintf("op %d: created %s although the Job (as cached) has a kill timestamp", k, a.Name))
+						}
+						if adm || cj.DeletionTimestamp != nil {
+							hit("C08", "C08/create-after-gate-closed", fmt.Sprintf("op %d: created %s although the Job has an admission error or is being deleted", k, a.Name))
+						}
+						for _, ref := range cj.Status.Tasks {
+							if viewRef(ref).Hash == h && ref.Status.Result == execution.TaskSucceeded {
+								hit("C08", "C08/create-after-success", fmt.Sprintf("op %d: created %s although %s of the same index succeeded", k, a.Name, ref.Name))
+							}
+						}
+					}
+				case "delete":
+					if a.Outcome == 3 {
+						continue
+					}
+					var pod *corev1.Pod
+					for _, p := range prevPods {
+						if p.Name == a.Name {
+							pod = p
+						}
+					}
+					if a.Force {
+						if fd <= 0 || m.ForbidForce {
+							hit("C12", "C12/force-delete-forbidden", fmt.Sprintf("op %d: force-deleted %s with force timeout %d, forbid=%v", k, a.Name, fd, m.ForbidForce))
+						}
+						if pod != nil && (pod.DeletionTimestamp == nil || now < pod.DeletionTimestamp.Unix()+fd) {
+							hit("C12", "C12/force-delete-early", fmt.Sprintf("op %d: force-deleted %s at %d, deletionTimestamp %v, timeout %d", k, a.Name, now, pod.DeletionTimestamp, fd))
+						}
+						continue
+					}
+					// why may the controller delete this task now?
+					cause := false
+					after := ob.Job
+					// the status the pass computes from its own caches (it may fail to store it)
+					var inPass *execution.Job
+					if cj != nil {
+						var tks []tasks.Task
+						for _, r := range cj.Status.Tasks {
+							for _, p := range ob.CachedPods {
+								if p.Name == r.Name {
+									tks = append(tks, podtaskexecutor.NewPodTask(p, nil))
+								}
+							}
+						}
+						saved := ktime.Clock
+						ktime.Clock = clocktesting.NewFakePassiveClock(time.Unix(now, 0))
+						if st, err := jobcontroller.UpdateJobStatusFromTaskRefs(jobutil.UpdateJobTaskRefs(cj, tks)); err == nil {
+							inPass = st
+						}
+						ktime.Clock = saved
+					}
+					for _, j := range []*execution.Job{cj, after, inPass} {
+						if j == nil {
+							continue
+						}
+						if j.DeletionTimestamp != nil {
+							cause = true
+						}
+						if kt := j.Spec.KillTimestamp; kt != nil && kt.Unix() <= now && j == cj {
+							cause = true
+						}
+						if ps := j.Status.ParallelStatus; ps != nil && ps.Complete {
+							cause = true
+						}
+					}
+					// pending timeout: judged on what the controller can see (its cached Pod) and on the truth
+					for _, cp := range append(append([]*corev1.Pod{}, ob.CachedPods...), pod) {
+						if cp != nil && cp.Name == a.Name && pt > 0 && cp.Status.Phase != corev1.PodRunning && podAlive(cp) && cp.CreationTimestamp.Unix()+pt <= now {
+							cause = true
+						}
+					}
+					if !cause {
+						sig := "C12/delete-without-cause"
+						if cj != nil && cj.Spec.KillTimestamp != nil && cj.Spec.KillTimestamp.Unix() > now {
+							sig = "C12/kill-before-kill-timestamp"
+						}
+						hit("C12", sig+lagSfx(ob), fmt.Sprintf("op %d: deleted %s at %d without a passed kill timestamp, decided strategy, pending timeout or Job deletion", k, a.Name, now))
+					}
+				case "delete-job":
+					if a.Outcome == 3 || cj == nil {
+						continue
+					}
+					ttl := int64(0)
+					if cfg.TTL != nil {
+						ttl = *cfg.TTL
+					}
+					if cj.Spec.TTLSecondsAfterFinished != nil {
+						ttl = *cj.Spec.TTLSecondsAfterFinished
+					}
+					// the pass judges the status it has just computed from its caches (a Job that finishes
+					// in this very pass may be deleted before that status is stored)
+					var tks []tasks.Task
+					for _, r := range cj.Status.Tasks {
+						for _, p := range ob.CachedPods {
+							if p.Name == r.Name {
+								tks = append(tks, podtaskexecutor.NewPodTask(p, nil))
+							}
+						}
+					}
+					saved := ktime.Clock
+					ktime.Clock = clocktesting.NewFakePassiveClock(time.Unix(now, 0))
+					st, err := jobcontroller.UpdateJobStatusFromTaskRefs(jobutil.UpdateJobTaskRefs(cj, tks))
+					ktime.Clock = saved
+					admInPass := false // an admission error raised by this very pass finishes the Job now
+					for _, a2 := range ob.Actions {
+						if a2.Verb == "create" && a2.Outcome == 2 {
+							admInPass = true
+						}
+						if a2.Verb == "create" && a2.Outcome == 1 {
+							for _, p := range prevPods {
+								if p.Name == a2.Name && !podControlled(p) {
+									admInPass = true
+								}
+							}
+						}
+					}
+					if admInPass {
+						// finish time = now: any ttl >= 0 must have elapsed
+						if ttl > 0 {
+							hit("C13", "C13/ttl-delete-early", fmt.Sprintf("op %d: controller deleted the Job in the pass that raised its admission error, ttl %d", k, ttl))
+						}
+					} else if err != nil || st.Status.Condition.Finished == nil {
+						hit("C13", "C13/ttl-delete-unfinished", fmt.Sprintf("op %d: controller deleted a Job that is not finished (ttl=%d)", k, ttl))
+					} else if ft := st.Status.Condition.Finished.FinishTimestamp; !ft.IsZero() && now < ft.Unix()+ttl {
+						hit("C13", "C13/ttl-delete-early", fmt.Sprintf("op %d: controller deleted the Job at %d, finish %d, ttl %d", k, now, ft.Unix(), ttl))
+					}
+				}
+			}
+		}
+		// pairwise comparison of stored Job versions
+		if prevJob != nil && ob.Job != nil {
+			a, b := prevJob, ob.Job
+			if !a.Status.StartTime.IsZero() && (b.Status.StartTime.IsZero() || !a.Status.StartTime.Equal(b.Status.StartTime)) {
+				hit("C11", "C11/start-time-changed", fmt.Sprintf("op %d: startTime %v -> %v", k, a.Status.StartTime, b.Status.StartTime))
+			}
+			if jobFinished(a) && !jobFinished(b) {
+				hit("C11", "C11/finished-became-unfinished"+lagSfx(ob), fmt.Sprintf("op %d: phase %s -> %s", k, a.Status.Phase, b.Status.Phase))
+			}
+			// exempt once the user has killed/deleted the Job, or the Job is being deleted at all
+			// (TTL clean-up by the controller rewrites the status of a deleting Job; documented in DESIGN.md)
+			if jobFinished(a) && jobFinished(b) && !userTouched && a.DeletionTimestamp == nil && b.DeletionTimestamp == nil {
+				fa, fb := a.Status.Condition.Finished, b.Status.Condition.Finished
+				if fa.Result != fb.Result || !fa.FinishTimestamp.Equal(&fb.FinishTimestamp) {
+					hit("C11", "C11/result-or-finish-time-changed"+lagSfx(ob), fmt.Sprintf("op %d: %s@%d -> %s@%d", k, fa.Result, fa.FinishTimestamp.Unix(), fb.Result, fb.FinishTimestamp.Unix()))
+				}
+			}
+			if b.Status.CreatedTasks < a.Status.CreatedTasks {
+				hit("C11", "C11/created-tasks-decreased", fmt.Sprintf("op %d: %d -> %d", k, a.Status.CreatedTasks, b.Status.CreatedTasks))
+			}
+			for _, ra := range a.Status.Tasks {
+				found := false
+				for _, rb := range b.Status.Tasks {
+					if ra.Name != rb.Name {
+						continue
+					}
+					found = true
+					if (!ra.RunningTimestamp.IsZero() && rb.RunningTimestamp.IsZero()) || (!ra.FinishTimestamp.IsZero() && rb.FinishTimestamp.IsZero()) {
+						hit("C11", "C11/task-time-cleared", fmt.Sprintf("op %d: task %s lost a recorded timestamp", k, ra.Name))
+					}
+				}
+				if !found {
+					hit("C09", "C09/recorded-task-dropped", fmt.Sprintf("op %d: task %s is no longer listed", k, ra.Name))
+				}
+			}
+			// newly finished, not deleting: nothing of the Job may still be alive
+			if !jobFinished(a) && jobFinished(b) && b.DeletionTimestamp == nil {
+				for _, p := range ob.Pods {
+					if podControlled(p) && podAlive(p) {
+						sig := "C10/finished-with-live-task"
+						if b.Status.Condition.Finished.Result == execution.JobResultAdmissionError {
+							sig += "/admission-error"
+						}
+						hit("C10", sig+lagSfx(ob), fmt.Sprintf("op %d: Job reported %s while %s is alive", k, b.Status.Condition.Finished.Result, p.Name))
+					}
+				}
+				if b.Status.Condition.Finished.Result == execution.JobResultSuccess {
+					n := 0
+					for _, h := range m.Hashes {
+						if truthSucceeded[h] {
+							n++
+						}
+					}
+					if (m.Strategy == "Any" && n == 0) || (m.Strategy != "Any" && n < len(m.Hashes)) {
+						hit("C10", "C10/success-not-real"+lagSfx(ob), fmt.Sprintf("op %d: result Success but only %d of %d indexes had a Pod that really succeeded", k, n, len(m.Hashes)))
+					}
+				}
+			}
+		}
+		// refs marked lost while their Pod exists and is alive
+		if ob.Job != nil && o.Kind == "sync" {
+			for _, r := range ob.Job.Status.Tasks {
+				if r.Status.State != execution.TaskDeletedFinalStateUnknown {
+					continue
+				}
+				for _, p := range ob.Pods {
+					if p.Name == r.Name && podControlled(p) && podAlive(p) && k == taintAt {
+						hit("C09", "C09/lost-while-exists"+lagSfx(ob), fmt.Sprintf("op %d: task %s recorded as DeletedFinalStateUnknown while its Pod exists", k, r.Name))
+					}
+				}
+			}
+		}
+		// the Job object left the API: its tasks must be gone
+		if prevJob != nil && ob.Job == nil {
+			for _, r := range prevJob.Status.Tasks {
+				for _, p := range ob.Pods {
+					if p.Name == r.Name {
+						hit("C13", "C13/job-gone-before-tasks"+lagSfx(ob), fmt.Sprintf("op %d: the Job was removed while its task %s still exists", k, p.Name))
+					}
+				}
+			}
+		}
+		prevJob, prevPods = ob.Job, ob.Pods
+	}
+	// end state (the generator drives every history to quiescence)
+	last := obs[len(obs)-1]
+	if j := last.Job; j != nil {
+		listed := map[string]bool{}
+		for _, r := range j.Status.Tasks {
+			listed[r.Name] = true
+		}
+		for _, p := range last.Pods {
+			if podControlled(p) && !listed[p.Name] {
+				hit("C09", "C09/unrecorded-task-at-quiescence", fmt.Sprintf("Pod %s is owned by the Job but not listed in status.tasks (phase %s, kill %v, deletion %v)", p.Name, j.Status.Phase, j.Spec.KillTimestamp, j.DeletionTimestamp))
+			}
+		}
+		if kt := j.Spec.KillTimestamp; kt != nil && kt.Unix() <= last.Now && !j.Status.StartTime.IsZero() {
+			if !j.Status.Phase.IsTerminal() {
+				hit("C12", "C12/not-terminal-after-kill", fmt.Sprintf("kill timestamp passed but phase is %s at quiescence", j.Status.Phase))
+			}
+			for _, p := range last.Pods {
+				if podControlled(p) && podAlive(p) {
+					sig := "C12/task-alive-after-kill"
+					if !listed[p.Name] {
+						sig = "C12/unrecorded-task-alive-after-kill"
+					}
+					hit("C12", sig, fmt.Sprintf("kill timestamp passed but %s is alive at quiescence", p.Name))
+				}
+			}
+		}
+		if foreignSeen && j.Spec.KillTimestamp == nil && j.DeletionTimestamp == nil && j.Status.Phase != execution.JobAdmissionError && !j.Status.Phase.IsTerminal() {
+			hit("C09", "C09/foreign-occupant-no-admission-error", fmt.Sprintf("a foreign Pod occupies a task name but the Job is %s at quiescence", j.Status.Phase))
+		}
+		if j.DeletionTimestamp != nil {
+			hit("C13", "C13/deletion-does-not-complete", fmt.Sprintf("the Job has a deletion timestamp but is still present at quiescence (finalizers %v, %d Pods left)", j.Finalizers, len(last.Pods)))
+		}
+	}
+}
